@@ -962,6 +962,10 @@ if NUMPY_VERSION >= Version("2.1.0.dev0"):
 
 @implements(np.pad)
 def pad(array, *args, **kwargs):
+    for key in ("constant_values", "end_values"):
+        if key in kwargs:
+            # fill values given as quantities are expressed in the array's units
+            kwargs[key] = _values_in(array.units, kwargs[key])
     return np.pad._implementation(np.asarray(array), *args, **kwargs) * array.units
 
 
